@@ -56,10 +56,10 @@ def run(ctx):
         ("all unit-weight digraphs <=4 nodes (UniformCost)", subst(0, 4, True, "{1}", 0),
          "uniform", "graph,traverse"),
         ("sampled digraphs on 4 nodes, weights {-2,0,1,3}, seed %d" % ctx.seed,
-         subst(4, 4, True, "{0,2,3,5}", 2, mode="sample", seed=ctx.seed, nsamples=20000 if thorough else 1500),
+         subst(4, 4, True, "{0,2,3,5}", 2, mode="sample", seed=ctx.seed, nsamples=12000 if thorough else 1500),
          "weighted,matrix", "graph,traverse"),
         ("sampled digraphs on 4 nodes, weights {0,1,2} (ties, zero cycles, Yen), seed %d" % ctx.seed,
-         subst(4, 4, True, "{0,1,2}", 0, mode="sample", seed=ctx.seed, nsamples=20000 if thorough else 1500),
+         subst(4, 4, True, "{0,1,2}", 0, mode="sample", seed=ctx.seed, nsamples=12000 if thorough else 1500),
          "weighted", "graph"),
     ]
     if thorough:
@@ -67,13 +67,13 @@ def run(ctx):
             ("all undirected graphs <=4 nodes, weights {-2,0,1,3}", subst(0, 4, False, "{0,2,3,5}", 2),
              "weighted,matrix", "graph,traverse"),
             ("sampled digraphs on 5 nodes, weights {-1,0,1,2}, seed %d" % ctx.seed,
-             subst(5, 5, True, "{0,1,2,3}", 1, mode="sample", seed=ctx.seed, nsamples=5000),
+             subst(5, 5, True, "{0,1,2,3}", 1, mode="sample", seed=ctx.seed, nsamples=3000),
              "weighted,matrix", "graph,traverse"),
             ("sampled undirected graphs on 5 nodes, weights {0,1,2}, seed %d" % ctx.seed,
-             subst(5, 5, False, "{0,1,2}", 0, mode="sample", seed=ctx.seed, nsamples=5000),
+             subst(5, 5, False, "{0,1,2}", 0, mode="sample", seed=ctx.seed, nsamples=3000),
              "weighted", "graph"),
-            ("all digraphs on 4 nodes, weights {0,1} (shard %d of 4 by seed)" % (ctx.seed % 4),
-             subst(4, 4, True, "{0,1}", 0, shard=ctx.seed % 4, nshards=4), "weighted", "graph"),
+            ("all digraphs on 4 nodes, weights {0,1} (shard %d of 32 by seed)" % (ctx.seed % 32),
+             subst(4, 4, True, "{0,1}", 0, shard=ctx.seed % 32, nshards=32), "weighted", "graph"),
         ]
     for name, sb, kinds, views in plans:
         cases = ctx.gen(SPEC, CFG, subst=sb, name="R2 gen " + name)
